@@ -8,19 +8,11 @@ import (
 	"fmt"
 	"os"
 
-	"lcverif/c12"
 	"lcverif/common"
 	"lcverif/rng"
 )
 
-type prop struct {
-	gen    func(r *rng.R, tier string, n int, emit func(*common.Case))
-	replay func(raw json.RawMessage) (*common.Case, error)
-}
-
-var props = map[string]prop{
-	"c12": {c12.Generate, c12.RunJSON},
-}
+// property packages register themselves; each is linked in by a reg_<prop>.go file in this directory
 
 func die(f string, a ...interface{}) {
 	fmt.Fprintf(os.Stderr, "lcv: "+f+"\n", a...)
@@ -31,7 +23,7 @@ func main() {
 	if len(os.Args) < 3 {
 		die("usage: lcv <prop> gen|replay ...")
 	}
-	p, ok := props[os.Args[1]]
+	p, ok := common.Registry[os.Args[1]]
 	if !ok {
 		die("unknown property %s", os.Args[1])
 	}
@@ -53,7 +45,7 @@ func main() {
 	}
 	switch os.Args[2] {
 	case "gen":
-		p.gen(rng.New(*seed), *tier, *n, emit)
+		p.Generate(rng.New(*seed), *tier, *n, emit)
 	case "replay":
 		data, err := os.ReadFile(*in)
 		if err != nil {
@@ -64,7 +56,7 @@ func main() {
 			die("replay file: %v", err)
 		}
 		for _, raw := range inputs {
-			c, err := p.replay(raw)
+			c, err := p.Replay(raw)
 			if err != nil {
 				die("replay: %v", err)
 			}
